@@ -2,7 +2,7 @@
 import numpy as np
 
 from mc import scenario as S
-from .common import viol, merge_cases, family, ImplRun, asset_nodes
+from .common import bool_vars, viol, merge_cases, family, ImplRun, asset_nodes
 from . import c07
 
 PROPERTY = "C01"
@@ -82,4 +82,18 @@ def run_case(case):
         return res
     res["violations"] += balance_violations(tab, nodes, T, tags)
     res["nontrivial"] = bool(sum(float(np.abs(v).sum()) for v in tab.values()) > 1e-6)
+    # a relaxed solve of a MIP portfolio (boolean variables may take fractions) is a returned solution as well
+    if scn.get("mode", "mono") == "mono" and bool_vars(run.op):
+        try:
+            import eaopack as eao
+            soft = run.op.optimize(solver="SCIPY", make_soft_problem=True)
+            if not isinstance(soft, str):
+                out2 = eao.io.extract_output(run.portf, run.op, soft, run.prices)
+                run2 = ImplRun.__new__(ImplRun)
+                run2.scn, run2.out = scn, out2
+                tab2, nodes2 = ImplRun.table(run2)
+                res["violations"] += [dict(v, oracle="c01.balance_relaxed") for v in balance_violations(tab2, nodes2, T, tags + ["relaxed"])]
+                res["counters"]["relaxed_checked"] = 1
+        except Exception as e:
+            res["counters"]["relaxed_error"] = 1
     return res
